@@ -286,3 +286,68 @@ func verifLkUnlock(mu *sync.Mutex) {
 }
 `)
 }
+
+func init() { generators = append(generators, genConnsCount) }
+
+// The proxy counts a request against its backend with one atomic add. Let the
+// simulator yield right before that add, so that whatever a variant of the
+// code does between looking at the counter and updating it is interleaved
+// with the other requests.
+func genConnsCount(repo, out string, m map[string]string) error {
+	if err := rewriteFile(repo, out, m, "connscount", "caskethttp/proxy/proxy.go", []repl{
+		{old: "atomic.AddInt64(&host.Conns, 1)", new: "verifConnsAdd(&host.Conns, 1)"}}); err != nil {
+		return err
+	}
+	if !applied["connscount"] {
+		delete(m, filepath.Join(repo, "caskethttp/proxy/proxy.go"))
+	}
+	return shim(repo, out, m, "caskethttp/proxy/zz_verif_count.go", `//go:build verif
+
+package proxy
+
+import "sync/atomic"
+
+// VerifBeforeCount, when set, runs right before a request is counted against its backend.
+var VerifBeforeCount func()
+
+func verifConnsAdd(p *int64, d int64) int64 {
+	if VerifBeforeCount != nil {
+		VerifBeforeCount()
+	}
+	return atomic.AddInt64(p, d)
+}
+`)
+}
+
+func init() { generators = append(generators, genHealthClient) }
+
+// The active health checker builds its own http.Client (real sockets). Let
+// the simulator replace that client's transport before the worker's first
+// check, so that the real worker, ticker and healthCheck() run against
+// simulated health endpoints.
+func genHealthClient(repo, out string, m map[string]string) error {
+	// (upstream.go is not rewritten by any other seam)
+	if err := rewriteFile(repo, out, m, "healthclient", "caskethttp/proxy/upstream.go", []repl{
+		{old: "upstream.HealthCheckWorker(upstream.stop)", new: "verifHealthWorker(upstream)"}}); err != nil {
+		return err
+	}
+	if !applied["healthclient"] {
+		delete(m, filepath.Join(repo, "caskethttp/proxy/upstream.go"))
+	}
+	return shim(repo, out, m, "caskethttp/proxy/zz_verif_health.go", `//go:build verif
+
+package proxy
+
+import "net/http"
+
+// VerifHealthClient, when set, may adjust the health checker's client before its first use.
+var VerifHealthClient func(c *http.Client)
+
+func verifHealthWorker(u *staticUpstream) {
+	if VerifHealthClient != nil {
+		VerifHealthClient(&u.HealthCheck.Client)
+	}
+	u.HealthCheckWorker(u.stop)
+}
+`)
+}
